@@ -2,5 +2,20 @@
 
 package staticsources
 
+import (
+	"github.com/bluenviron/mediamtx/internal/defs"
+	"github.com/bluenviron/mediamtx/internal/logger"
+)
+
 // VerifStarted reports whether the handler has ever been started (its context exists).
 func VerifStarted(s *Handler) bool { return s.ctx != nil }
+
+// VerifSetInstance replaces the protocol client of a handler that has not been started yet (the harness plays
+// a source whose Run, like every real one, blocks until its context is cancelled).
+func VerifSetInstance(s *Handler, inst interface {
+	Log(logger.Level, string, ...any)
+	Run(defs.StaticSourceRunParams) error
+	APISourceDescribe() *defs.APIPathSource
+}) {
+	s.instance = inst
+}
